@@ -62,6 +62,55 @@ fn abstract_term(t: &Tm, rng: &mut Rng, assigned: &mut Vec<(Tm, u32)>, depth: us
 
 pub struct MatchCheck;
 
+fn pat_slots(p: &Pat, out: &mut Vec<S>) {
+    if let Pat::Node { slots, kids, .. } = p {
+        for s in slots {
+            if !out.contains(s) {
+                out.push(*s);
+            }
+        }
+        for (_, k) in kids {
+            pat_slots(k, out);
+        }
+    }
+}
+
+fn rename_pat_slot(p: &Pat, from: S, to: S) -> Pat {
+    match p {
+        Pat::Node { op, pay, slots, kids } => Pat::Node {
+            op: *op,
+            pay: *pay,
+            slots: slots.iter().map(|s| if *s == from { to } else { *s }).collect(),
+            kids: kids
+                .iter()
+                .map(|(b, k)| {
+                    if b.contains(&from) || b.contains(&to) {
+                        (b.clone(), k.clone())
+                    } else {
+                        (b.clone(), rename_pat_slot(k, from, to))
+                    }
+                })
+                .collect(),
+        },
+        other => other.clone(),
+    }
+}
+
+/// non-injective renaming of two (non-binder) slots of the pattern
+fn merge_two_slots(p: &Pat, rng: &mut Rng) -> Pat {
+    let mut sl = Vec::new();
+    pat_slots(p, &mut sl);
+    if sl.len() < 2 {
+        return p.clone();
+    }
+    let a = sl[rng.below(sl.len())];
+    let b = sl[rng.below(sl.len())];
+    if a == b {
+        return p.clone();
+    }
+    rename_pat_slot(p, a, b)
+}
+
 fn pat_op(p: &Pat) -> Op {
     Op::new("pattern").s(&p.to_string())
 }
@@ -140,7 +189,12 @@ impl Check for MatchCheck {
             }
             let t = rng.pick(&terms).clone();
             let mut assigned = Vec::new();
-            let p = abstract_term(&t, &mut rng, &mut assigned, 0);
+            let mut p = abstract_term(&t, &mut rng, &mut assigned, 0);
+            if rng.chance(1, 3) {
+                // identify two distinct slots of the pattern (it must then not match terms that
+                // have two different slots in those positions), or split nothing
+                p = merge_two_slots(&p, &mut rng);
+            }
             run.ops.push(pat_op(&p));
         }
         // a multi-pattern: root equation plus equations for some of its children
@@ -556,6 +610,8 @@ impl Check for FireCheck {
         run.set("plant_var", rng.below(nvars.max(1) as usize) as i64);
         run.set("rename_free", rng.below(3) as i64);
         run.set("distractors", rng.below(3) as i64);
+        run.set("aux_rule", rng.chance(1, 3) as i64);
+        run.set("crate_rewrite", rng.chance(1, 2) as i64);
         let mut f = Rng::stream(seed, "faults");
         if f.chance(1, 2) {
             run.set("hash_seed", (f.next() >> 1) as i64 | 1);
@@ -695,16 +751,69 @@ impl Check for FireCheck {
         let cl: Pattern<LS> = l.to_pattern::<LS>(&mut s.nm);
         let cr: Pattern<LS> = r.to_pattern::<LS>(&mut s.nm);
         let (cl2, cr2) = (cl.clone(), cr.clone());
-        let rw: Rewrite<LS, ()> = RewriteT {
-            searcher: Box::new(move |eg: &EGraph<LS, ()>| ematch_all(eg, &cl)),
-            applier: Box::new(move |substs: Vec<Subst>, eg: &mut EGraph<LS, ()>| {
-                for sb in substs {
-                    eg.union_instantiations(&cl2, &cr2, &sb, Some("rule".to_string()));
+        let mut rules: Vec<Rewrite<LS, ()>> = Vec::new();
+        // optional auxiliary rule, applied in the same call BEFORE the rule under test: it rewrites
+        // the planted variable's term to another term whose class is bigger, so that the class the
+        // main rule's match refers to is merged away before the main rule's applier runs
+        if run.get("aux_rule") != 0 {
+            if let Some(v) = pv {
+                let tau = sub[&v].rename_keep_binders(&rho);
+                if tau.free().iter().all(|x| *x < BOUND_BASE || *x >= 20) {
+                    let fs = tau.free_vec();
+                    let tau2 = fs.iter().fold(Tm::pay("k", 4), |acc, x| Tm::node("g", vec![*x], vec![(vec![], acc)]));
+                    let r2 = catch_op(|| {
+                        s.add_term(&Tm::node("u", vec![], vec![(vec![], tau2.clone())]), false);
+                        s.add_term(&Tm::node("b", vec![], vec![(vec![], tau2.clone()), (vec![], Tm::pay("k", 3))]), false);
+                    });
+                    if r2.is_err() {
+                        out.discarded = Some("panic".into());
+                        return out;
+                    }
+                    let al: Pattern<LS> = Pat::from_tm(&tau).to_pattern::<LS>(&mut s.nm);
+                    let ar: Pattern<LS> = Pat::from_tm(&tau2).to_pattern::<LS>(&mut s.nm);
+                    match catch_op(|| Rewrite::<LS, ()>::new("aux", &al.to_string(), &ar.to_string())) {
+                        Ok(rw) => {
+                            rules.push(rw);
+                            out.bump("aux_rule_used");
+                        }
+                        Err(_) => {
+                            out.discarded = Some("aux_rule_unparsable".into());
+                            return out;
+                        }
+                    }
                 }
-            }),
+            }
         }
-        .into();
-        if catch_op(|| apply_rewrites(&mut s.eg, &[rw])).is_err() {
+        if run.get("crate_rewrite") != 0 {
+            // the crate's own Rewrite::new (string based searcher / applier)
+            match catch_op(|| Rewrite::<LS, ()>::new("rule", &cl.to_string(), &cr.to_string())) {
+                Ok(rw) => {
+                    rules.push(rw);
+                    out.bump("crate_rewrite_new_used");
+                }
+                Err(_) => {
+                    out.discarded = Some("rule_unparsable".into());
+                    return out;
+                }
+            }
+        } else {
+            let rw: Rewrite<LS, ()> = RewriteT {
+                searcher: Box::new(move |eg: &EGraph<LS, ()>| ematch_all(eg, &cl)),
+                applier: Box::new(move |substs: Vec<Subst>, eg: &mut EGraph<LS, ()>| {
+                    for sb in substs {
+                        eg.union_instantiations(&cl2, &cr2, &sb, Some("rule".to_string()));
+                    }
+                }),
+            }
+            .into();
+            rules.push(rw);
+        }
+        // the instance must (still) be present right before the call
+        let Some(hl) = lookup_rec_expr(&lre, &s.eg) else {
+            out.discarded = Some("instance_not_present".into());
+            return out;
+        };
+        if catch_op(|| apply_rewrites(&mut s.eg, &rules)).is_err() {
             out.discarded = Some("panic_in_rewrite".into());
             return out;
         }
